@@ -1,1 +1,369 @@
-//! placeholder
+//! `crash` — every prefix of the mutation log, torn writes included (DESIGN 4.3).
+//!
+//! For each case (rules + pre-history + operation) the operation is run with
+//! journaling: after every file-system mutation (inside ruler and inside commands) a
+//! snapshot of the whole file system is kept, and for every `write` also the torn
+//! variants (only a strict prefix of the bytes reached the disk).  This is done under
+//! the serial schedule, under every DPOR representative schedule and under all
+//! schedules with at most one preemption.  Each distinct snapshot is a crash state:
+//! "ruler was killed at this instant".  Every crash state is judged:
+//!
+//!  (a) the cache is content-addressed (C07 at the crash instant),
+//!  (b) no previously existing content is lost (C08; at ruler's own mutations only —
+//!      commands are assumed to write atomically),
+//!  (c) a state file either fails to decode or decodes to a value that a completed
+//!      write produced,
+//!  (d) a fresh build from the crash state succeeds and satisfies C01.
+use std::cell::RefCell;
+use std::collections::{BTreeMap, BTreeSet};
+use std::rc::Rc;
+use std::sync::atomic::{AtomicUsize, Ordering};
+use std::sync::{Arc, Mutex};
+use std::time::{Duration, Instant};
+
+use serde_json::{json, Value};
+
+use crate::hist::{self, expected_verdict, Finding, Op, Oracles, State};
+use crate::memsys::{ClockModel, Fs, Snap};
+use crate::model::*;
+use crate::report::{Report, Violation};
+use crate::sched::{self, Job, Outcome};
+use crate::schedeng::{self, ExploreCfg, SchedCase};
+use crate::world::*;
+
+pub struct CrashStats
+{
+    pub snapshots_seen: u64,
+    pub distinct_crash_states: u64,
+    pub torn_states: u64,
+    pub recovery_builds: u64,
+    pub schedules: u64,
+}
+
+/// values a state file legitimately had: in the pre-state, and after every complete write
+fn legit_state_values(pre: &Fs, snaps: &[Snap]) -> (BTreeSet<String>, BTreeSet<String>)
+{
+    let mut hist_vals = BTreeSet::new();
+    let mut table_vals = BTreeSet::new();
+    let mut add = |fs: &Fs, hist_vals: &mut BTreeSet<String>, table_vals: &mut BTreeSet<String>|
+    {
+        for (_name, dec) in decode_history(fs)
+        {
+            if let Some(m) = dec { hist_vals.insert(format!("{:?}", m)); }
+        }
+        if let Some(Some(t)) = decode_table(fs) { table_vals.insert(format!("{:?}", t)); }
+    };
+    add(pre, &mut hist_vals, &mut table_vals);
+    for s in snaps
+    {
+        if s.torn.is_none() && s.desc.starts_with("write ")
+        {
+            add(&s.fs, &mut hist_vals, &mut table_vals);
+        }
+        if s.torn.is_none() && s.desc.starts_with("rename ")
+        {
+            add(&s.fs, &mut hist_vals, &mut table_vals);
+        }
+    }
+    // an empty map is what a fresh/absent file means
+    hist_vals.insert(format!("{:?}", BTreeMap::<[u8; 32], Vec<[u8; 32]>>::new()));
+    table_vals.insert(format!("{:?}", BTreeMap::<String, MFileState>::new()));
+    (hist_vals, table_vals)
+}
+
+fn judge(case: &SchedCase, prep: &State, snap: &Snap, legit: &(BTreeSet<String>, BTreeSet<String>)) -> Vec<Finding>
+{
+    let mut out = vec![];
+    let rules = &case.sc.variants[prep.variant];
+    let at = format!("killed right after [{}]{}", snap.desc, if snap.in_cmd { " (inside a command)" } else { "" });
+    // (a)
+    for b in cache_audit(&snap.fs)
+    {
+        out.push(Finding { property: "C11", what: format!("cache not content-addressed at a crash point: {}", at), detail: b });
+    }
+    // (b)
+    if !snap.in_cmd && snap.torn.is_none()
+    {
+        let paths = all_declared_targets(&case.sc.variants);
+        let before = content_set(&prep.fs, &paths);
+        let after = content_set(&snap.fs, &paths);
+        for lost in before.difference(&after)
+        {
+            out.push(Finding { property: "C11", what: format!("previously existing content lost at a crash point: {}", at), detail: format!("{:?}", show(lost)) });
+        }
+    }
+    // (c)
+    for (name, dec) in decode_history(&snap.fs)
+    {
+        if let Some(m) = dec
+        {
+            if !legit.0.contains(&format!("{:?}", m))
+            {
+                out.push(Finding { property: "C11", what: format!("half-written rule history is misread as valid data: {}", at), detail: name });
+            }
+        }
+    }
+    if let Some(Some(t)) = decode_table(&snap.fs)
+    {
+        if !legit.1.contains(&format!("{:?}", t))
+        {
+            out.push(Finding { property: "C11", what: format!("half-written file-state table is misread as valid data: {}", at), detail: String::new() });
+        }
+    }
+    // (d) recovery
+    let rc = RunCfg::serial(ClockModel::Strict);
+    let rr = run_build(&snap.fs, &rc, &None);
+    match expected_verdict(rules, &snap.fs, &None)
+    {
+        Some((exp, scope, ev)) =>
+        {
+            if exp != Verdict::Ok
+            {
+                // corpus invariant: from-scratch build succeeds
+                out.push(Finding { property: "HARNESS", what: "crash case whose from-scratch build does not succeed".into(), detail: format!("{:?}", exp) });
+            }
+            else if rr.verdict != Verdict::Ok
+            {
+                out.push(Finding
+                {
+                    property: "C11",
+                    what: format!("the next build fails ({}) when ruler was {}", crate::cli::first_line(&verdict_text(&rr.verdict)), at),
+                    detail: format!("{:?}", rr.verdict),
+                });
+            }
+            else
+            {
+                for r in &scope
+                {
+                    for t in rules[*r].sorted_targets()
+                    {
+                        let want = ev.values.get(&t).map(|v| v.0.clone());
+                        let got = rr.fs.read(&t);
+                        if want != got
+                        {
+                            out.push(Finding
+                            {
+                                property: "C11",
+                                what: format!("the next build succeeds but leaves a wrong target when ruler was {}", at),
+                                detail: format!("{}: expected {:?} got {:?}", t, want.as_ref().map(show), got.as_ref().map(show)),
+                            });
+                        }
+                    }
+                }
+            }
+        },
+        None => {},
+    }
+    out
+}
+
+fn verdict_text(v: &Verdict) -> String
+{
+    match v
+    {
+        Verdict::Ok => "Ok".into(),
+        Verdict::WorkErrors(es) => format!("WorkErrors{:?}", es.iter().map(|e| match e { WErr::Other(s) => s.split('(').take(3).collect::<Vec<_>>().join("("), o => format!("{:?}", o) }).collect::<Vec<_>>()),
+        Verdict::Other(s) =>
+        {
+            // drop file names (they contain content hashes)
+            s.split(|c| c == '"').next().unwrap_or("").trim_end_matches('(').to_string()
+        },
+    }
+}
+
+pub fn crash_cases(tier: &str) -> Vec<SchedCase>
+{
+    let all = schedeng::success_cases("thorough");
+    let quick = ["single/fresh/build", "chain2/fresh/build", "chain2/built+edit/build", "chain2/cleaned/build", "chain2/built/clean",
+        "twins/cleaned/build", "multi/built+edit2/build", "diamond/reverted/build", "multi/built/clean"];
+    all.into_iter().filter(|c| tier == "thorough" || quick.contains(&c.name.as_str())).collect()
+}
+
+pub fn run_crash(rep: &mut Report, tier: &str)
+{
+    let thorough = tier == "thorough";
+    let mut total_snaps = 0u64;
+    let mut total_distinct = 0u64;
+    let mut total_torn = 0u64;
+    let mut total_recoveries = 0u64;
+    let mut total_sched = 0u64;
+    let mut per = vec![];
+    let mut exhaustive = true;
+    for case in crash_cases(tier)
+    {
+        let prep = match schedeng::prepare(&case)
+        {
+            Ok(p) => p,
+            Err(e) => { rep.machinery(format!("case {}: pre-history failed: {}", case.name, e)); continue; },
+        };
+        // 1. collect crash states under: serial + DPOR representatives + all schedules with <= 1 preemption
+        let mut snaps: std::collections::HashMap<[u8; 16], Snap> = Default::default();
+        let mut sched_count = 0u64;
+        let mut seen = 0u64;
+        let mut phases_json = vec![];
+        let small = case.name.starts_with("single") || case.name.starts_with("chain2") || case.name.starts_with("twins/");
+        let mut phases: Vec<(&str, bool, Option<usize>, f64)> = vec![("serial+preemption-bound-0", false, Some(0), if thorough { 20.0 } else { 1.0 }), ("dpor-unbounded", true, None, if thorough { 30.0 } else { 2.0 })];
+        if small || thorough
+        {
+            phases.push(("preemption-bound-1", false, Some(1), if thorough { 30.0 } else { 1.5 }));
+        }
+        for (label, por, bound, secs) in phases
+        {
+            let cfg = ExploreCfg
+            {
+                snapshots: true, por, bound, threads: crate::cli::threads(),
+                deadline: Instant::now() + Duration::from_millis((secs * 1000.0) as u64),
+                max_schedules: 2_000_000, oracles: Oracles::default(), c03: false, c04_history: false,
+            };
+            let r = schedeng::explore(&case, &prep, &cfg);
+            sched_count += r.schedules;
+            seen += r.snaps_seen;
+            phases_json.push(json!({"phase": label, "schedules": r.schedules, "complete": !r.cap_hit, "snapshots": r.snaps_seen, "distinct_so_far": snaps.len() + r.snaps.len()}));
+            if r.cap_hit && label != "preemption-bound-1" { exhaustive = false; }
+            for (k, v) in r.snaps { snaps.entry(k).or_insert(v); }
+            for e in r.harness_errors { rep.machinery(format!("case {}: {}", case.name, e)); }
+            for (choices, msg) in r.failures.iter().take(1)
+            {
+                rep.machinery(format!("case {}: execution failed while journaling (schedule {:?}): {}", case.name, choices, msg));
+            }
+        }
+        let snaps: Vec<Snap> = { let mut v: Vec<([u8; 16], Snap)> = snaps.into_iter().collect(); v.sort_by(|a, b| (a.1.after_mut, a.1.torn, a.0).cmp(&(b.1.after_mut, b.1.torn, b.0))); v.into_iter().map(|x| x.1).collect() };
+        let legit = legit_state_values(&prep.fs, &snaps);
+        let torn = snaps.iter().filter(|s| s.torn.is_some()).count() as u64;
+        // 2. judge every distinct crash state (parallel)
+        let snaps = Arc::new(snaps);
+        let legit = Arc::new(legit);
+        let idx = Arc::new(AtomicUsize::new(0));
+        let findings: Arc<Mutex<Vec<(usize, Finding)>>> = Arc::new(Mutex::new(vec![]));
+        let failures: Arc<Mutex<Vec<(usize, String)>>> = Arc::new(Mutex::new(vec![]));
+        let mut handles = vec![];
+        for _ in 0..crate::cli::threads()
+        {
+            let snaps = snaps.clone();
+            let legit = legit.clone();
+            let idx = idx.clone();
+            let findings = findings.clone();
+            let failures = failures.clone();
+            let case = case.clone();
+            let prep = prep.clone();
+            handles.push(std::thread::Builder::new().stack_size(16 << 20).spawn(move ||
+            {
+                let case = Arc::new(case);
+                let prep = Arc::new(prep);
+                let cur: Rc<RefCell<usize>> = Rc::new(RefCell::new(0));
+                let cur2 = cur.clone();
+                sched::pump(move |prev: Option<Outcome>|
+                {
+                    if let Some(o) = prev
+                    {
+                        if let Some(msg) = o.failure
+                        {
+                            failures.lock().unwrap().push((*cur2.borrow(), msg));
+                        }
+                    }
+                    let i = idx.fetch_add(1, Ordering::SeqCst);
+                    if i >= snaps.len() { return None; }
+                    *cur2.borrow_mut() = i;
+                    let snaps = snaps.clone();
+                    let legit = legit.clone();
+                    let case = case.clone();
+                    let prep = prep.clone();
+                    let findings = findings.clone();
+                    Some(Job::serial(Box::new(move ||
+                    {
+                        let fs = judge(&case, &prep, &snaps[i], &legit);
+                        if !fs.is_empty()
+                        {
+                            let mut g = findings.lock().unwrap();
+                            for f in fs { g.push((i, f)); }
+                        }
+                    })))
+                });
+                let _ = cur;
+            }).unwrap());
+        }
+        for h in handles { let _ = h.join(); }
+        total_snaps += seen;
+        total_distinct += snaps.len() as u64;
+        total_torn += torn;
+        total_recoveries += snaps.len() as u64;
+        total_sched += sched_count;
+        per.push(json!({"case": case.name, "pre_history": hist::ops_short(&case.pre), "operation": case.op.short(), "phases": phases_json,
+            "snapshots_taken": seen, "distinct_crash_states": snaps.len(), "of_which_torn_writes": torn, "recovery_builds": snaps.len()}));
+        if let Some(s) = snaps.iter().find(|s| s.torn.is_some())
+        {
+            rep.push_sample(json!({"case": case.name, "crash_point": s.desc, "mutation_index": s.after_mut}));
+        }
+        for (i, msg) in failures.lock().unwrap().iter()
+        {
+            let s = &snaps[*i];
+            let what = format!("the next build panics or hangs when ruler was killed right after [{}]", s.desc);
+            rep.violation(Violation
+            {
+                property: "C11".into(),
+                signature: format!("C11:crash:{}:{}", case.name, what),
+                summary: format!("{}: {}", what, msg),
+                replay: json!({"engine": "crash", "case": case.name, "crash_desc": s.desc, "what": what}),
+            });
+        }
+        let mut by_sig: BTreeMap<String, (usize, Finding)> = BTreeMap::new();
+        for (i, f) in findings.lock().unwrap().iter()
+        {
+            if f.property == "HARNESS" { rep.machinery(format!("case {}: {}", case.name, f.what)); continue; }
+            // signature: sizes of torn writes abstracted
+            let mut w = f.what.clone();
+            while let Some(b) = w.find(" bytes)") { match w[..b].rfind(" (") { Some(a) => w.replace_range(a..b + 7, ""), None => break } }
+            let sig = format!("C11:crash:{}", w);
+            by_sig.entry(sig).or_insert((*i, f.clone()));
+        }
+        for (sig, (i, f)) in by_sig
+        {
+            let s = &snaps[i];
+            rep.violation(Violation
+            {
+                property: "C11".into(),
+                signature: sig,
+                summary: format!("case {} [{} then {}], mutation #{}: {} — {}", case.name, hist::ops_short(&case.pre), case.op.short(), s.after_mut, f.what, f.detail),
+                replay: json!({"engine": "crash", "case": case.name, "crash_desc": s.desc, "what": f.what}),
+            });
+        }
+    }
+    rep.add("states", total_distinct);
+    rep.add("transitions", total_recoveries + total_sched);
+    rep.add("traces_validated_against_impl", total_recoveries + total_sched);
+    rep.add("snapshots_taken", total_snaps);
+    rep.add("torn_write_states", total_torn);
+    rep.add("journaling_schedules", total_sched);
+    rep.add("recovery_builds", total_recoveries);
+    rep.set("exhaustive", json!(exhaustive));
+    rep.set("per_case", json!(per));
+}
+
+/// Replay: re-journal the case serially and under DPOR schedules, judge the crash states
+/// whose description matches.
+pub fn replay(case_name: &str, crash_desc: &str, what: &str) -> i32
+{
+    let case = match schedeng::case_by_name(case_name) { Some(c) => c, None => { eprintln!("unknown case"); return 2; } };
+    let prep = match schedeng::prepare(&case) { Ok(p) => p, Err(e) => { eprintln!("{}", e); return 2; } };
+    let cfg = ExploreCfg { snapshots: true, por: true, bound: None, threads: 1, deadline: Instant::now() + Duration::from_secs(60),
+        max_schedules: 100_000, oracles: Oracles::default(), c03: false, c04_history: false };
+    let r = schedeng::explore(&case, &prep, &cfg);
+    let snaps: Vec<Snap> = r.snaps.into_iter().map(|x| x.1).collect();
+    let legit = legit_state_values(&prep.fs, &snaps);
+    let mut hit = false;
+    for s in snaps.iter().filter(|s| s.desc == crash_desc)
+    {
+        let s2 = s.clone();
+        let case2 = case.clone();
+        let prep2 = prep.clone();
+        let legit2 = legit.clone();
+        let (fs, o) = sched::run_once(vec![], move || judge(&case2, &prep2, &s2, &legit2));
+        if let Some(m) = o.failure { println!("recovery build failed to run: {}", m); hit = true; }
+        for f in fs.unwrap_or_default()
+        {
+            println!("{}: {} — {}", f.property, f.what, f.detail);
+            if f.what == what || what.is_empty() { hit = true; }
+        }
+    }
+    if hit { 1 } else { 0 }
+}
